@@ -145,6 +145,7 @@ pub fn cases(tier: Tier) -> Vec<GCase> {
             };
             let mut c = GCase::new(gadget, e, "mul_generator");
             c.dev_stride = tier.pick(13, 1);
+            c.rewire = canonical && (tier == Tier::Thorough || (gn == "G" && (sn == "1" || sn == "rho")));
             out.push(c);
 
             // prover-chosen digit vectors through the seam
